@@ -455,3 +455,607 @@ example : let H : Hier := ⟨[(rootKey, ⟨500, 32, -1⟩)], [((500, 32), [(root
   subst h; rfl
 
 end LasModel.Props.C15
+
+namespace LasModel.Props.C15
+open LasModel.Copc Gen.Copc
+
+/-! ### traversal across lazily loaded pages -/
+
+/-- a record of the root page or of the page found at some reference -/
+def InFile (H : Hier) (x : Key × Entry) : Prop := x ∈ H.root ∨ ∃ r, x ∈ pageAt H r
+
+/-- `H` is a paged presentation of the reference-free dictionary `M`: every data record agrees with
+    `M`, every page reference leads to a page, and whichever page gives a node its data also has a
+    record (data or reference) for each of the node's children that exist in `M` -/
+structure Paged (H : Hier) (M : Page) : Prop where
+  sub : Sub H M
+  noRefs : NoRefs M
+  data : ∀ k e, InFile H (k, e) → e.count ≠ -1 → lookup M k = some e
+  root : (lookup M rootKey).isSome → (lookup H.root rootKey).isSome
+  childRoot : ∀ k e, (k, e) ∈ H.root → 0 ≤ e.count → ∀ d, d < 8 → (lookup M (child k d)).isSome → ∃ e', (child k d, e') ∈ H.root
+  childPage : ∀ r k e, (k, e) ∈ pageAt H r → 0 ≤ e.count → ∀ d, d < 8 → (lookup M (child k d)).isSome → ∃ e', (child k d, e') ∈ pageAt H r
+
+structure LInv (H : Hier) (M : Page) (st : St) : Prop where
+  from_ : ∀ x ∈ st.entries, x ∈ H.root ∨ ∃ r ∈ st.visited, x ∈ pageAt H r
+  rootIn : ∀ x ∈ H.root, x ∈ st.entries
+  pagesIn : ∀ r ∈ st.visited, ∀ x ∈ pageAt H r, x ∈ st.entries
+  complete : ∀ c ∈ st.todo, (lookup M c).isSome → (lookup st.entries c).isSome
+
+theorem lookup_isSome_of_mem {es : Page} {k : Key} {e : Entry} (h : (k, e) ∈ es) : (lookup es k).isSome := by
+  induction es with
+  | nil => cases h
+  | cons x xs ih =>
+    obtain ⟨j, e'⟩ := x
+    simp only [lookup]
+    split
+    · rfl
+    · next hj =>
+      cases h with
+      | head => exact absurd rfl hj
+      | tail _ h => exact ih h
+
+theorem lookup_append_isSome (p es : Page) (k : Key) (h : (lookup es k).isSome) : (lookup (p ++ es) k).isSome := by
+  induction p with
+  | nil => exact h
+  | cons x xs ih =>
+    obtain ⟨j, e'⟩ := x
+    simp only [List.cons_append, lookup]
+    split
+    · rfl
+    · exact ih
+
+theorem mem_collectAll_cons (H : Hier) (q : Query) (M : Page) (k : Key) (rest : List Key) (n : Node) :
+    n ∈ collectAll H q M (k :: rest) ↔ n ∈ collect H q M (fuelOf H k) k ∨ n ∈ collectAll H q M rest := by
+  rw [collectAll_cons, List.mem_append]
+
+theorem mem_collectAll_append (H : Hier) (q : Query) (M : Page) (a b : List Key) (n : Node) :
+    n ∈ collectAll H q M (a ++ b) ↔ n ∈ collectAll H q M a ∨ n ∈ collectAll H q M b := by
+  rw [collectAll_append, List.mem_append]
+
+theorem collect_nil_of (H : Hier) (q : Query) (M : Page) (k : Key)
+    (h : q.ov k = false ∨ q.cut k.level = true ∨ depth H < k.level ∨ lookup M k = none) :
+    collect H q M (fuelOf H k) k = [] := by
+  cases hf : fuelOf H k with
+  | zero => rfl
+  | succ f =>
+    simp only [collect]
+    rcases h with h | h | h | h
+    · simp [h]
+    · by_cases h1 : q.ov k = false <;> simp [h1, h]
+    · by_cases h1 : q.ov k = false <;> by_cases h2 : q.cut k.level = true <;> simp [h1, h2, h]
+    · by_cases h1 : q.ov k = false <;> by_cases h2 : q.cut k.level = true <;> by_cases h3 : depth H < k.level <;> simp [h1, h2, h3, h]
+
+theorem inFile_of_inv {H : Hier} {M : Page} {st : St} (hI : LInv H M st) {x : Key × Entry} (hx : x ∈ st.entries) : InFile H x := by
+  rcases hI.from_ x hx with h | ⟨r, _, h⟩
+  · exact Or.inl h
+  · exact Or.inr ⟨r, h⟩
+
+/-- **whenever the traversal returns, it has returned exactly the nodes of the recursive traversal of
+    the merged dictionary** — across any number of lazily loaded pages, in whatever order the
+    re-queued nodes were processed -/
+theorem lazy_collect (H : Hier) (q : Query) (M : Page) (hP : Paged H M) (st st' : St) (hI : LInv H M st)
+    (hr : loop H q st = .ok st') :
+    ∀ n, n ∈ st'.out ↔ n ∈ st.out ∨ n ∈ collectAll H q M st.todo := by
+  fun_induction loop H q st with
+  | case1 x h =>
+    injection hr with hr; subst hr
+    intro n; simp [h, collectAll]
+  | case2 x k rest h1 h2 ih =>
+    intro n
+    rw [ih ⟨hI.from_, hI.rootIn, hI.pagesIn, fun c hc => hI.complete c (by rw [h1]; exact List.mem_cons_of_mem _ hc)⟩ hr n,
+      h1, mem_collectAll_cons, collect_nil_of H q M k (Or.inl h2)]
+    simp
+  | case3 x k rest h1 h2 h3 ih =>
+    intro n
+    rw [ih ⟨hI.from_, hI.rootIn, hI.pagesIn, fun c hc => hI.complete c (by rw [h1]; exact List.mem_cons_of_mem _ hc)⟩ hr n,
+      h1, mem_collectAll_cons, collect_nil_of H q M k (Or.inr (Or.inl h3))]
+    simp
+  | case4 x k rest h1 h2 h3 h4 ih =>
+    intro n
+    rw [ih ⟨hI.from_, hI.rootIn, hI.pagesIn, fun c hc => hI.complete c (by rw [h1]; exact List.mem_cons_of_mem _ hc)⟩ hr n,
+      h1, mem_collectAll_cons, collect_nil_of H q M k (Or.inr (Or.inr (Or.inl h4)))]
+    simp
+  | case5 x k rest h1 h2 h3 h4 h5 ih =>
+    intro n
+    have hm : lookup M k = none := by
+      cases hM : lookup M k with
+      | none => rfl
+      | some e =>
+        have := hI.complete k (by rw [h1]; exact List.mem_cons_self) (by rw [hM]; rfl)
+        rw [h5] at this; cases this
+    rw [ih ⟨hI.from_, hI.rootIn, hI.pagesIn, fun c hc => hI.complete c (by rw [h1]; exact List.mem_cons_of_mem _ hc)⟩ hr n,
+      h1, mem_collectAll_cons, collect_nil_of H q M k (Or.inr (Or.inr (Or.inr hm)))]
+    simp
+  | case6 => cases hr
+  | case7 => cases hr
+  | case8 x k rest h1 h2 h3 h4 e h5 h6 h7 h8 entries h9 ih =>
+    intro n
+    have hI' : LInv H M { entries := entries, todo := rest ++ [k], visited := (e.offset, e.byteSize) :: x.visited, out := x.out } := by
+      refine ⟨?_, ?_, ?_, ?_⟩
+      · intro y hy
+        simp only [entries, update, List.mem_append, List.mem_reverse] at hy
+        rcases hy with hy | hy
+        · exact Or.inr ⟨_, List.mem_cons_self, hy⟩
+        · rcases hI.from_ y hy with h | ⟨r, hr', h⟩
+          · exact Or.inl h
+          · exact Or.inr ⟨r, List.mem_cons_of_mem _ hr', h⟩
+      · intro y hy
+        simp only [entries, update, List.mem_append, List.mem_reverse]
+        exact Or.inr (hI.rootIn y hy)
+      · intro r hr' y hy
+        simp only [entries, update, List.mem_append, List.mem_reverse]
+        rcases List.mem_cons.mp hr' with rfl | hr''
+        · exact Or.inl hy
+        · exact Or.inr (hI.pagesIn r hr'' y hy)
+      · intro c hc hMc
+        have hc' : c ∈ x.todo := by
+          rw [h1]
+          rcases List.mem_append.mp hc with h | h
+          · exact List.mem_cons_of_mem _ h
+          · simp only [List.mem_singleton] at h; subst h; exact List.mem_cons_self
+        exact lookup_append_isSome _ _ c (hI.complete c hc' hMc)
+    rw [ih hI' hr n, h1, mem_collectAll_append, mem_collectAll_cons, mem_collectAll_cons]
+    have hnil : ¬ n ∈ collectAll H q M [] := by simp [collectAll]
+    constructor
+    · rintro (h | h | h | h)
+      · exact Or.inl h
+      · exact Or.inr (Or.inr h)
+      · exact Or.inr (Or.inl h)
+      · exact absurd h hnil
+    · rintro (h | h | h)
+      · exact Or.inl h
+      · exact Or.inr (Or.inr (Or.inl h))
+      · exact Or.inr (Or.inl h)
+  | case9 => cases hr
+  | case10 x k rest h1 h2 h3 h4 e h5 h6 h7 ih =>
+    intro n
+    have hmem := lookup_mem h5
+    have hM : lookup M k = some e := hP.data k e (inFile_of_inv hI hmem) h6
+    have hI' : LInv H M ⟨x.entries, childrenRev k ++ rest, x.visited, addOut q x.out ⟨k, e.offset, e.byteSize, e.count⟩⟩ := by
+      refine ⟨hI.from_, hI.rootIn, hI.pagesIn, ?_⟩
+      intro c hc hMc
+      rcases List.mem_append.mp hc with hc | hc
+      · obtain ⟨d, hd, rfl⟩ := of_mem_childrenRev hc
+        rcases hI.from_ _ hmem with hroot | ⟨r, hr', hp⟩
+        · obtain ⟨e', he'⟩ := hP.childRoot k e hroot h7 d hd hMc
+          exact lookup_isSome_of_mem (hI.rootIn _ he')
+        · obtain ⟨e', he'⟩ := hP.childPage r k e hp h7 d hd hMc
+          exact lookup_isSome_of_mem (hI.pagesIn r hr' _ he')
+      · exact hI.complete c (by rw [h1]; exact List.mem_cons_of_mem _ hc) hMc
+    rw [ih hI' hr n, h1, mem_collectAll_cons, mem_collectAll_append]
+    have hf := fuel_child H k 0 h4
+    have hc : collect H q M (fuelOf H k) k =
+        addOut q [] ⟨k, e.offset, e.byteSize, e.count⟩ ++ (childrenRev k).flatMap (collect H q M (fuelOf H (child k 0))) := by
+      rw [hf]; simp [collect, h2, h3, h4, hM, h7]
+    rw [hc, collectAll_children H q M k (fuelOf H (child k 0)) (fun d => by unfold fuelOf; simp [child])]
+    rw [addOut_eq, List.mem_append, List.mem_append]
+    constructor
+    · rintro ((h | h) | h | h)
+      · exact Or.inl h
+      · exact Or.inr (Or.inl (Or.inl h))
+      · exact Or.inr (Or.inl (Or.inr h))
+      · exact Or.inr (Or.inr h)
+    · rintro (h | (h | h) | h)
+      · exact Or.inl (Or.inl h)
+      · exact Or.inl (Or.inr h)
+      · exact Or.inr (Or.inl h)
+      · exact Or.inr (Or.inr h)
+  | case11 x k rest h1 h2 h3 h4 e h5 h6 h7 ih =>
+    intro n
+    have hmem := lookup_mem h5
+    have hM : lookup M k = some e := hP.data k e (inFile_of_inv hI hmem) h6
+    have hI' : LInv H M ⟨x.entries, rest, x.visited, addOut q x.out ⟨k, 0, 0, 0⟩⟩ :=
+      ⟨hI.from_, hI.rootIn, hI.pagesIn, fun c hc => hI.complete c (by rw [h1]; exact List.mem_cons_of_mem _ hc)⟩
+    rw [ih hI' hr n, h1, mem_collectAll_cons]
+    have hf := fuel_child H k 0 h4
+    have hc : collect H q M (fuelOf H k) k = addOut q [] ⟨k, 0, 0, 0⟩ := by
+      rw [hf]; simp [collect, h2, h3, h4, hM, h7]
+    rw [hc, addOut_eq, List.mem_append]
+    constructor
+    · rintro ((h | h) | h)
+      · exact Or.inl h
+      · exact Or.inr (Or.inl h)
+      · exact Or.inr (Or.inr h)
+    · rintro (h | h | h)
+      · exact Or.inl (Or.inl h)
+      · exact Or.inl (Or.inr h)
+      · exact Or.inr h
+
+/-- **C15 nodes, across pages**: for every hierarchy that is a paged presentation of a dictionary `M`
+    (any depth, sparsity, empty nodes, any split over pages, pages loaded lazily in any order): whenever
+    the query's traversal returns, the nodes it returns are exactly the selected ones — every parent holds
+    data in `M`, the cube overlaps the box, the level is in the range — each with its chunk location -/
+theorem C15_nodes_paged (H : Hier) (M : Page) (hP : Paged H M) (q : Query) (hm : Mono q)
+    (hrg : ∀ l, q.inRange l = true → q.cut l = false) (st : St) (hr : load H q = .ok st) :
+    ∀ n, n ∈ st.out ↔ ∃ j e, Anc M rootKey j ∧ q.ov j = true ∧ q.inRange j.level = true ∧
+      lookup M j = some e ∧ n = nodeOf j e := by
+  intro n
+  have hI : LInv H M ⟨H.root, [rootKey], [], []⟩ := by
+    refine ⟨fun x hx => Or.inl hx, fun x hx => hx, ?_, ?_⟩
+    · intro r hr'; cases hr'
+    · intro c hc h
+      simp only [List.mem_singleton] at hc
+      subst hc; exact hP.root h
+  rw [lazy_collect H q M hP _ st hI hr n]
+  simp only [List.not_mem_nil, false_or, collectAll, List.flatMap_cons, List.flatMap_nil, List.append_nil]
+  rw [mem_collect H q M hP.sub _ rootKey (by unfold fuelOf; omega)]
+  constructor
+  · rintro ⟨j, e, hp, h1, _, hl, hrg', rfl⟩
+    exact ⟨j, e, path_anc hp, h1, hrg', hl, rfl⟩
+  · rintro ⟨j, e, ha, h1, hrg', hl, rfl⟩
+    exact ⟨j, e, anc_path hm ha h1 (hrg _ hrg'), h1, hrg _ hrg', hl, hrg', rfl⟩
+
+/-- non-vacuity: a two-page hierarchy (the root refers to a page that holds a child's data) is a paged
+    presentation of the merged dictionary -/
+example : Paged ⟨[(rootKey, ⟨100, 60, 2⟩), (child rootKey 3, ⟨500, 32, -1⟩)], [((500, 32), [(child rootKey 3, ⟨160, 30, 1⟩)])]⟩
+    [(rootKey, ⟨100, 60, 2⟩), (child rootKey 3, ⟨160, 30, 1⟩)] := by
+  refine ⟨?_, ?_, ?_, ?_, ?_, ?_⟩
+  · intro x hx
+    simp only [List.mem_cons, List.mem_nil_iff, or_false] at hx
+    rcases hx with rfl | rfl
+    · exact Or.inl (by simp)
+    · exact Or.inr ⟨_, List.mem_cons_self, by simp⟩
+  · intro k e h
+    simp only [lookup] at h
+    split at h
+    · cases h; decide
+    · split at h
+      · cases h; decide
+      · cases h
+  · intro k e hin hc
+    rcases hin with h | ⟨r, h⟩
+    · simp only [List.mem_cons, List.mem_nil_iff, or_false, Prod.mk.injEq] at h
+      rcases h with ⟨rfl, rfl⟩ | ⟨rfl, rfl⟩
+      · rfl
+      · exact absurd rfl hc
+    · simp only [pageAt, findPage] at h
+      split at h
+      · simp only [List.mem_cons, List.mem_nil_iff, or_false, Prod.mk.injEq] at h
+        obtain ⟨rfl, rfl⟩ := h
+        decide
+      · cases h
+  · intro _; rfl
+  · intro k e h hc d hd hM
+    simp only [List.mem_cons, List.mem_nil_iff, or_false, Prod.mk.injEq] at h
+    rcases h with ⟨rfl, rfl⟩ | ⟨rfl, rfl⟩
+    · have : d = 3 := by
+        have h8 : d = 0 ∨ d = 1 ∨ d = 2 ∨ d = 3 ∨ d = 4 ∨ d = 5 ∨ d = 6 ∨ d = 7 := by omega
+        rcases h8 with rfl | rfl | rfl | rfl | rfl | rfl | rfl | rfl <;> first | rfl | (exfalso; revert hM; decide)
+      subst this
+      exact ⟨⟨500, 32, -1⟩, by simp⟩
+    · exact absurd hc (by decide)
+  · intro r k e h hc d hd hM
+    simp only [pageAt, findPage] at h
+    split at h
+    · simp only [List.mem_cons, List.mem_nil_iff, or_false, Prod.mk.injEq] at h
+      obtain ⟨rfl, rfl⟩ := h
+      exfalso
+      have h8 : d = 0 ∨ d = 1 ∨ d = 2 ∨ d = 3 ∨ d = 4 ∨ d = 5 ∨ d = 6 ∨ d = 7 := by omega
+      rcases h8 with rfl | rfl | rfl | rfl | rfl | rfl | rfl | rfl <;> (revert hM; decide)
+    · cases h
+
+end LasModel.Props.C15
+
+namespace LasModel.Props.C15
+open LasModel.Copc Gen.Copc
+
+def target (e : Entry) : Ref := (e.offset, e.byteSize)
+
+/-- the page-reference rule of a well-formed file: the page a reference leads to describes the node
+    with data; a node has one reference record, stored in one page; a page is referenced for one node -/
+structure RefRule (H : Hier) : Prop where
+  resolves : ∀ k e, InFile H (k, e) → e.count = -1 →
+    ∃ e', lookup (pageAt H (target e)).reverse k = some e' ∧ e'.count ≠ -1
+  oneRef : ∀ k e1 e2, InFile H (k, e1) → InFile H (k, e2) → e1.count = -1 → e2.count = -1 → e1 = e2
+  oneKey : ∀ k1 e1 k2 e2, InFile H (k1, e1) → InFile H (k2, e2) → e1.count = -1 → e2.count = -1 →
+    target e1 = target e2 → k1 = k2
+  notRoot : ∀ k e r, e.count = -1 → (k, e) ∈ H.root → (k, e) ∉ pageAt H r
+  onePage : ∀ k e r1 r2, e.count = -1 → (k, e) ∈ pageAt H r1 → (k, e) ∈ pageAt H r2 → r1 = r2
+
+structure VInv (H : Hier) (st : St) : Prop where
+  from_ : ∀ x ∈ st.entries, x ∈ H.root ∨ ∃ r ∈ st.visited, x ∈ pageAt H r
+  fresh : ∀ k e, lookup st.entries k = some e → e.count = -1 → target e ∉ st.visited
+  cause : ∀ r ∈ st.visited, ∃ k e, e.count = -1 ∧ target e = r ∧ ((k, e) ∈ H.root ∨ ∃ r' ∈ st.visited, (k, e) ∈ pageAt H r')
+
+theorem lookup_append_some (p es : Page) (k : Key) (e : Entry) (h : lookup p k = some e) : lookup (p ++ es) k = some e := by
+  induction p with
+  | nil => cases h
+  | cons x xs ih =>
+    obtain ⟨j, e'⟩ := x
+    simp only [List.cons_append, lookup] at h ⊢
+    split
+    · next hj => simp only [hj, if_true] at h; exact h
+    · next hj => simp only [hj, if_false] at h; exact ih h
+
+theorem lookup_append_none (p es : Page) (k : Key) (h : lookup p k = none) : lookup (p ++ es) k = lookup es k := by
+  induction p with
+  | nil => rfl
+  | cons x xs ih =>
+    obtain ⟨j, e'⟩ := x
+    simp only [List.cons_append, lookup] at h ⊢
+    split
+    · next hj => simp only [hj, if_true] at h; cases h
+    · next hj => simp only [hj, if_false] at h; exact ih h
+
+theorem sub_of_from {H : Hier} {es : Page} {vis : List Ref}
+    (h : ∀ x ∈ es, x ∈ H.root ∨ ∃ r ∈ vis, x ∈ pageAt H r) : Sub H es := by
+  intro x hx
+  rcases h x hx with h1 | ⟨r, _, h2⟩
+  · exact Or.inl h1
+  · exact Or.inr (findPage_sub _ _ x h2)
+
+theorem inFile_of_from {H : Hier} {es : Page} {vis : List Ref}
+    (h : ∀ x ∈ es, x ∈ H.root ∨ ∃ r ∈ vis, x ∈ pageAt H r) {x : Key × Entry} (hx : x ∈ es) : InFile H x := by
+  rcases h x hx with h1 | ⟨r, _, h2⟩
+  · exact Or.inl h1
+  · exact Or.inr ⟨r, h2⟩
+
+/-- **a file that obeys the page-reference rule never makes the traversal fail** -/
+theorem loop_succeeds (H : Hier) (q : Query) (hR : RefRule H) (st : St) (hV : VInv H st) :
+    ∃ st', loop H q st = .ok st' := by
+  fun_induction loop H q st with
+  | case1 x h => exact ⟨x, rfl⟩
+  | case2 x k rest h1 h2 ih => exact ih ⟨hV.from_, hV.fresh, hV.cause⟩
+  | case3 x k rest h1 h2 h3 ih => exact ih ⟨hV.from_, hV.fresh, hV.cause⟩
+  | case4 x k rest h1 h2 h3 h4 ih => exact ih ⟨hV.from_, hV.fresh, hV.cause⟩
+  | case5 x k rest h1 h2 h3 h4 h5 ih => exact ih ⟨hV.from_, hV.fresh, hV.cause⟩
+  | case6 x k rest h1 h2 h3 h4 e h5 h6 h7 => exact absurd h7 (hV.fresh k e h5 h6)
+  | case7 x k rest h1 h2 h3 h4 e h5 h6 h7 h8 entries h9 =>
+    exfalso
+    obtain ⟨e', he', hne⟩ := hR.resolves k e (inFile_of_from hV.from_ (lookup_mem h5)) h6
+    have : lookup entries k = some e' := lookup_append_some _ _ k e' he'
+    rw [this] at h9
+    simp at h9
+    exact hne h9
+  | case8 x k rest h1 h2 h3 h4 e h5 h6 h7 h8 entries h9 ih =>
+    apply ih
+    have hin0 : InFile H (k, e) := inFile_of_from hV.from_ (lookup_mem h5)
+    refine ⟨?_, ?_, ?_⟩
+    · intro y hy
+      simp only [entries, update, List.mem_append, List.mem_reverse] at hy
+      rcases hy with hy | hy
+      · exact Or.inr ⟨_, List.mem_cons_self, hy⟩
+      · rcases hV.from_ y hy with h | ⟨r, hr', h⟩
+        · exact Or.inl h
+        · exact Or.inr ⟨r, List.mem_cons_of_mem _ hr', h⟩
+    · intro j ej hj hc ht
+      cases hp : lookup (pageAt H (e.offset, e.byteSize)).reverse j with
+      | some xj =>
+        -- the new page defines j: the visible record is the page's
+        have hvis : lookup entries j = some xj := lookup_append_some _ _ j xj hp
+        rw [hvis] at hj; injection hj with hj; subst hj
+        have hmemP : (j, xj) ∈ pageAt H (e.offset, e.byteSize) := List.mem_reverse.mp (lookup_mem hp)
+        have hinj : InFile H (j, xj) := Or.inr ⟨_, hmemP⟩
+        rcases List.mem_cons.mp ht with ht | ht
+        · -- it targets the page just loaded: that page must give j its data
+          obtain ⟨e', he', hne⟩ := hR.resolves j xj hinj hc
+          have : target xj = (e.offset, e.byteSize) := ht
+          rw [this, hp] at he'
+          injection he' with he'; subst he'
+          exact hne hc
+        · -- it targets a page loaded earlier
+          obtain ⟨k2, e2, hc2, ht2, hwhere⟩ := hV.cause _ ht
+          have hin2 : InFile H (k2, e2) := by
+            rcases hwhere with h | ⟨r', _, h⟩
+            · exact Or.inl h
+            · exact Or.inr ⟨r', h⟩
+          have hk : k2 = j := hR.oneKey k2 e2 j xj hin2 hinj hc2 hc ht2
+          subst hk
+          have he : e2 = xj := hR.oneRef k2 e2 xj hin2 hinj hc2 hc
+          subst he
+          rcases hwhere with h | ⟨r', hr', h⟩
+          · exact hR.notRoot k2 e2 _ hc h hmemP
+          · have := hR.onePage k2 e2 r' (e.offset, e.byteSize) hc h hmemP
+            subst this
+            exact h7 hr'
+      | none =>
+        have hvis : lookup entries j = lookup x.entries j := lookup_append_none _ _ j hp
+        rw [hvis] at hj
+        rcases List.mem_cons.mp ht with ht | ht
+        · -- a second visible reference to the page just loaded: the same node, which the page defines
+          have hinj : InFile H (j, ej) := inFile_of_from hV.from_ (lookup_mem hj)
+          have hk : j = k := hR.oneKey j ej k e hinj hin0 hc h6 ht
+          subst hk
+          obtain ⟨e', he', _⟩ := hR.resolves j e hin0 h6
+          unfold target at he'
+          rw [hp] at he'; cases he'
+        · exact hV.fresh j ej hj hc ht
+    · intro r hr'
+      rcases List.mem_cons.mp hr' with rfl | hr''
+      · refine ⟨k, e, h6, rfl, ?_⟩
+        rcases hV.from_ _ (lookup_mem h5) with h | ⟨r', hr3, h⟩
+        · exact Or.inl h
+        · exact Or.inr ⟨r', List.mem_cons_of_mem _ hr3, h⟩
+      · obtain ⟨k2, e2, hc2, ht2, hwhere⟩ := hV.cause r hr''
+        refine ⟨k2, e2, hc2, ht2, ?_⟩
+        rcases hwhere with h | ⟨r', hr3, h⟩
+        · exact Or.inl h
+        · exact Or.inr ⟨r', List.mem_cons_of_mem _ hr3, h⟩
+  | case9 x k rest h1 h2 h3 h4 e h5 h6 h7 h8 =>
+    exact absurd (sub_ref (sub_of_from hV.from_) h5 h6) h8
+  | case10 x k rest h1 h2 h3 h4 e h5 h6 h7 ih => exact ih ⟨hV.from_, hV.fresh, hV.cause⟩
+  | case11 x k rest h1 h2 h3 h4 e h5 h6 h7 ih => exact ih ⟨hV.from_, hV.fresh, hV.cause⟩
+
+/-- **C15 nodes, complete**: a file that is a paged presentation of `M` and obeys the page-reference
+    rule: the query's traversal returns, and returns exactly the selected nodes -/
+theorem C15_nodes (H : Hier) (M : Page) (hP : Paged H M) (hR : RefRule H) (q : Query) (hm : Mono q)
+    (hrg : ∀ l, q.inRange l = true → q.cut l = false) :
+    ∃ st, load H q = .ok st ∧
+      ∀ n, n ∈ st.out ↔ ∃ j e, Anc M rootKey j ∧ q.ov j = true ∧ q.inRange j.level = true ∧
+        lookup M j = some e ∧ n = nodeOf j e := by
+  have hV : VInv H ⟨H.root, [rootKey], [], []⟩ := by
+    refine ⟨fun x hx => Or.inl hx, ?_, ?_⟩
+    · intro k e _ _ h; cases h
+    · intro r hr; cases hr
+  obtain ⟨st, hst⟩ := loop_succeeds H q hR ⟨H.root, [rootKey], [], []⟩ hV
+  exact ⟨st, hst, C15_nodes_paged H M hP q hm hrg st hst⟩
+
+/-- non-vacuity: the two-page hierarchy of the `Paged` example obeys the page-reference rule -/
+example : RefRule ⟨[(rootKey, ⟨100, 60, 2⟩), (child rootKey 3, ⟨500, 32, -1⟩)], [((500, 32), [(child rootKey 3, ⟨160, 30, 1⟩)])]⟩ := by
+  have hin : ∀ k e, InFile ⟨[(rootKey, ⟨100, 60, 2⟩), (child rootKey 3, ⟨500, 32, -1⟩)], [((500, 32), [(child rootKey 3, ⟨160, 30, 1⟩)])]⟩ (k, e) →
+      e.count = -1 → k = child rootKey 3 ∧ e = ⟨500, 32, -1⟩ := by
+    intro k e h hc
+    rcases h with h | ⟨r, h⟩
+    · simp only [List.mem_cons, List.mem_nil_iff, or_false, Prod.mk.injEq] at h
+      rcases h with ⟨rfl, rfl⟩ | ⟨rfl, rfl⟩
+      · exact absurd hc (by decide)
+      · exact ⟨rfl, rfl⟩
+    · simp only [pageAt, findPage] at h
+      split at h
+      · simp only [List.mem_cons, List.mem_nil_iff, or_false, Prod.mk.injEq] at h
+        obtain ⟨rfl, rfl⟩ := h
+        exact absurd hc (by decide)
+      · cases h
+  have hpage : ∀ k e r, (k, e) ∈ pageAt ⟨[(rootKey, ⟨100, 60, 2⟩), (child rootKey 3, ⟨500, 32, -1⟩)], [((500, 32), [(child rootKey 3, ⟨160, 30, 1⟩)])]⟩ r →
+      e.count ≠ -1 := by
+    intro k e r h
+    simp only [pageAt, findPage] at h
+    split at h
+    · simp only [List.mem_cons, List.mem_nil_iff, or_false, Prod.mk.injEq] at h
+      obtain ⟨rfl, rfl⟩ := h
+      decide
+    · cases h
+  refine ⟨?_, ?_, ?_, ?_, ?_⟩
+  · intro k e h hc
+    obtain ⟨rfl, rfl⟩ := hin k e h hc
+    exact ⟨⟨160, 30, 1⟩, by decide, by decide⟩
+  · intro k e1 e2 h1 h2 c1 c2
+    rw [(hin k e1 h1 c1).2, (hin k e2 h2 c2).2]
+  · intro k1 e1 k2 e2 h1 h2 c1 c2 _
+    rw [(hin k1 e1 h1 c1).1, (hin k2 e2 h2 c2).1]
+  · intro k e r hc _ hp
+    exact hpage k e r hp hc
+  · intro k e r1 r2 hc hp _
+    exact absurd hc (hpage k e r1 hp)
+
+end LasModel.Props.C15
+
+/-! ### grouping and fetching the chunks -/
+
+namespace LasModel.Props.C15
+open LasModel.Copc Gen.Copc
+
+def nodeBytes (file : List UInt8) (n : Node) : List UInt8 := (file.drop n.offset).take n.byteSize
+
+def Contig : Nat → List Node → Prop
+  | _, [] => True
+  | start, n :: ns => n.offset = start ∧ Contig (start + n.byteSize) ns
+
+theorem sumSizes_cons (n : Node) (ns : List Node) : sumSizes (n :: ns) = n.byteSize + sumSizes ns := by
+  simp [sumSizes]
+
+theorem sumSizes_append (a b : List Node) : sumSizes (a ++ b) = sumSizes a + sumSizes b := by
+  simp [sumSizes]
+
+theorem contig_append (start : Nat) (g : List Node) (n : Node) (hg : Contig start g) (hn : n.offset = start + sumSizes g) :
+    Contig start (g ++ [n]) := by
+  induction g generalizing start with
+  | nil => simp only [List.nil_append, Contig]; simp [sumSizes] at hn; exact ⟨hn, trivial⟩
+  | cons x xs ih =>
+    obtain ⟨h1, h2⟩ := hg
+    refine ⟨h1, ih _ h2 ?_⟩
+    rw [sumSizes_cons] at hn
+    omega
+
+theorem read_contig (file : List UInt8) (start : Nat) (g : List Node) (h : Contig start g) :
+    (file.drop start).take (sumSizes g) = g.flatMap (nodeBytes file) := by
+  induction g generalizing start with
+  | nil => simp [sumSizes]
+  | cons n ns ih =>
+    obtain ⟨h1, h2⟩ := h
+    rw [sumSizes_cons, List.flatMap_cons, List.take_add, nodeBytes, h1, List.drop_drop, ih _ h2]
+
+def GoodGroup (g : List Node) : Prop := Contig ((g.head?.map (·.offset)).getD 0) g
+
+theorem fetch_group (file : List UInt8) (g : List Node) (h : GoodGroup g) :
+    fetchAll file (byteQueries [g]) = g.flatMap (nodeBytes file) := by
+  simp only [fetchAll, byteQueries, List.map_cons, List.map_nil, List.flatMap_cons, List.flatMap_nil, List.append_nil]
+  exact read_contig file _ g h
+
+theorem fetch_groups (file : List UInt8) (gs : List (List Node)) (h : ∀ g ∈ gs, GoodGroup g) :
+    fetchAll file (byteQueries gs) = gs.flatten.flatMap (nodeBytes file) := by
+  induction gs with
+  | nil => rfl
+  | cons g gs ih =>
+    have h1 := fetch_group file g (h g List.mem_cons_self)
+    have h2 := ih (fun x hx => h x (List.mem_cons_of_mem _ hx))
+    simp only [fetchAll, byteQueries, List.map_cons, List.flatMap_cons, List.flatten_cons, List.flatMap_append] at *
+    simp only [List.map_nil, List.flatMap_nil, List.append_nil] at h1
+    rw [h1, h2]
+
+structure GInv (s : GState) (pre : List Node) : Prop where
+  parts : s.groups.flatten ++ s.current = pre
+  good : ∀ g ∈ s.groups, GoodGroup g
+  cur : ∃ cs, Contig cs s.current ∧ s.lastEnd = cs + sumSizes s.current
+
+theorem good_of_contig (cs : Nat) (g : List Node) (h : Contig cs g) : GoodGroup g := by
+  cases g with
+  | nil => trivial
+  | cons x xs =>
+    unfold GoodGroup
+    simp only [List.head?_cons, Option.map_some, Option.getD_some]
+    obtain ⟨h1, h2⟩ := h
+    exact ⟨rfl, by rw [h1]; exact h2⟩
+
+theorem ginv_step (s : GState) (pre : List Node) (n : Node) (h : GInv s pre) : GInv (groupStep s n) (pre ++ [n]) := by
+  obtain ⟨hp, hg, cs, hc, hl⟩ := h
+  unfold groupStep
+  split
+  · next he =>
+    refine ⟨by simp only; rw [← List.append_assoc, hp], hg, cs, contig_append cs _ n hc (by rw [he, hl]), ?_⟩
+    simp only [sumSizes_append, sumSizes_cons, hl]
+    simp [sumSizes]; omega
+  · refine ⟨?_, ?_, n.offset, ⟨rfl, trivial⟩, by simp [sumSizes]⟩
+    · simp only [List.flatten_append, List.flatten_cons, List.flatten_nil, List.append_nil]
+      rw [hp]
+    · intro g hgm
+      rcases List.mem_append.mp hgm with h1 | h1
+      · exact hg g h1
+      · simp only [List.mem_singleton] at h1; subst h1; exact good_of_contig cs _ hc
+
+theorem ginv_fold (s : GState) (pre ns : List Node) (h : GInv s pre) : GInv (ns.foldl groupStep s) (pre ++ ns) := by
+  induction ns generalizing s pre with
+  | nil => simpa using h
+  | cons n ns ih =>
+    simp only [List.foldl_cons]
+    have := ih (groupStep s n) (pre ++ [n]) (ginv_step s pre n h)
+    simpa [List.append_assoc] using this
+
+/-- **grouping loses and reorders nothing**: the groups, flattened, are the nodes; every group is a run of
+    back-to-back chunks -/
+theorem groupNodes_spec (nodes : List Node) :
+    (groupNodes nodes).flatten = nodes ∧ ∀ g ∈ groupNodes nodes, GoodGroup g := by
+  cases nodes with
+  | nil => exact ⟨rfl, fun g hg => by cases hg⟩
+  | cons n0 ns =>
+    have h0 : GInv ⟨[], [], n0.offset⟩ [] := by
+      refine ⟨rfl, ?_, n0.offset, trivial, ?_⟩
+      · intro g hg; cases hg
+      · simp [sumSizes]
+    have hinv := ginv_fold ⟨[], [], n0.offset⟩ [] (n0 :: ns) h0
+    simp only [List.nil_append] at hinv
+    obtain ⟨hp, hg, cs, hc, _⟩ := hinv
+    unfold groupNodes
+    simp only
+    split
+    · next he =>
+      have : (List.foldl groupStep ⟨[], [], n0.offset⟩ (n0 :: ns)).current = [] := List.isEmpty_iff.mp he
+      rw [this, List.append_nil] at hp
+      exact ⟨hp, hg⟩
+    · refine ⟨by simp only [List.flatten_append, List.flatten_cons, List.flatten_nil, List.append_nil]; exact hp, ?_⟩
+      intro g hgm
+      rcases List.mem_append.mp hgm with h1 | h1
+      · exact hg g h1
+      · simp only [List.mem_singleton] at h1; subst h1; exact good_of_contig cs _ hc
+
+/-- **C15 fetch**: the bytes handed to the decompressor are the selected nodes' chunks one after the
+    other, in the order of the chunk table — whatever the chunk layout of the file (any order, gaps,
+    empty nodes), however the nodes were grouped into read requests -/
+theorem C15_fetch (file : List UInt8) (nodes : List Node) :
+    fetchAll file (byteQueries (groupNodes nodes)) = nodes.flatMap (nodeBytes file) ∧
+    chunkTable (groupNodes nodes).flatten = nodes.map (fun n => (n.count, n.byteSize)) := by
+  obtain ⟨h1, h2⟩ := groupNodes_spec nodes
+  refine ⟨?_, by rw [h1]; rfl⟩
+  rw [fetch_groups file _ h2, h1]
+
+end LasModel.Props.C15
